@@ -1,7 +1,7 @@
 (* C02  Only authentic packets are accepted; altered packets change nothing.
    Statements only; proofs are in proofs/PacketNumberProofs.v and proofs/ProtectProofs.v. *)
 From AQ Require Import lib.Base model.PacketNumber model.Protect gen.PnGen proofs.PacketNumberProofs proofs.ProtectProofs
-  model.KeyPhase proofs.KeyPhaseProofs gen.C02Keys model.KeyDerive proofs.KeyDeriveProofs.
+  model.KeyPhase proofs.KeyPhaseProofs gen.C02Keys model.KeyDerive proofs.KeyDeriveProofs model.KeyPhaseSec proofs.KeyPhaseSecProofs.
 
 (* the current source of decode_packet_number (translated by tools/gen/c02_pure.py) is the model *)
 Theorem gen_source_is_model : forall t b e, gen_decode_packet_number t b e = decode_packet_number t b e.
@@ -226,3 +226,46 @@ Theorem retry_keys_selected_by_version : forall v1 v2, (v1 =? QUIC_VERSION_2) <>
   fst (retry_key_nonce v1) <> fst (retry_key_nonce v2) /\ snd (retry_key_nonce v1) <> snd (retry_key_nonce v2).
 Proof. exact retry_keys_differ. Qed.
 Print Assumptions retry_keys_selected_by_version.
+
+(* ---- the key-phase machine with KEY MATERIAL (model/KeyPhaseSec.v): contexts carry secrets, packets the (key, iv) they were
+   sealed under.  chain_premises = a known cipher suite, first secrets of digest length, H-HMAC, and neither "ku" chain
+   returns to its first secret (proofs/KeyPhaseSecProofs.v). ---- *)
+
+(* a packet sealed under generation g of a direction opens under the keys of generation g' of that direction iff g = g' *)
+Theorem sealed_generation_opens_only_itself : forall hmac cs version s0 a, chain_premises hmac cs version s0 a ->
+  forall d g g', 0 <= g -> 0 <= g' ->
+  opens_under hmac cs version (cpkt hmac cs version s0 d (mkQ (Some g) (g mod 2) false)) (sec hmac cs version s0 d g') = (g =? g').
+Proof. exact sealed_generation_opens_only_itself_closed. Qed.
+Print Assumptions sealed_generation_opens_only_itself.
+
+(* the machine with key material, started from the two first secrets, run on any events described (revents) by allowed abstract
+   events, IS the counter machine: same verdicts, state = concretisation (generation g |-> g-th secret of the chain) *)
+Theorem secrets_refine_generations : forall hmac cs version s0 a, chain_premises hmac cs version s0 a ->
+  forall ses kes, allowed_run sys_init kes -> revents hmac cs version s0 ses kes ->
+  srun hmac cs version (ssys_init s0) ses = (csys hmac cs version s0 (fst (run sys_init kes)), snd (run sys_init kes)).
+Proof. exact secrets_refine_generations_closed. Qed.
+Print Assumptions secrets_refine_generations.
+
+(* an injected packet whose (key, iv) belongs to no generation of the direction it travels in -- other direction, other
+   connection, garbage, not a sealing at all -- is described by the forged abstract packet (q_auth = None) *)
+Theorem foreign_packet_is_forged : forall hmac cs version s0 d sp,
+  (forall g, 0 <= g -> sq_keys sp <> keys_of hmac cs version (sec hmac cs version s0 d g)) ->
+  rpkt hmac cs version s0 d sp (mkQ None (sq_phase sp) (sq_long sp)).
+Proof. exact foreign_packet_is_forged_closed. Qed.
+Print Assumptions foreign_packet_is_forged.
+
+(* genuine_packet_verdict with secrets instead of counters: a packet the peer has ever sent, sealed under the (key, iv) of the g-th
+   secret of its direction, is rejected by the receiver ONLY if the receiver's secret is already beyond the g-th; otherwise it is
+   accepted and the receiver's receive secret is then exactly the g-th secret *)
+Theorem genuine_packet_verdict_secrets : forall hmac cs version s0 a, chain_premises hmac cs version s0 a ->
+  forall s x k p, reachable s -> nth_error (hist s x) (Z.to_nat k) = Some p ->
+  exists g, 0 <= g /\
+    nth_error (shist (csys hmac cs version s0 s) x) (Z.to_nat k)
+      = Some (mkSQ (keys_of hmac cs version (sec hmac cs version s0 x g)) (q_phase p) (q_long p)) /\
+    let y := sep (csys hmac cs version s0 s) (negb x) in
+    sc_secret (sp_recv y) = sec hmac cs version s0 x (gen (ep s (negb x))) /\
+    ((g < gen (ep s (negb x)) /\ spair_decrypt hmac cs version y (cpkt hmac cs version s0 x p) = (y, Rejected)) \/
+     (gen (ep s (negb x)) <= g /\ exists y' upd, spair_decrypt hmac cs version y (cpkt hmac cs version s0 x p) = (y', Accepted upd) /\
+        sc_secret (sp_recv y') = sec hmac cs version s0 x g /\ upd = negb (g =? gen (ep s (negb x))))).
+Proof. exact genuine_packet_verdict_secrets_closed. Qed.
+Print Assumptions genuine_packet_verdict_secrets.
